@@ -45,6 +45,7 @@ class Check:
         self.fo = fo
         self.verbose = verbose
         self.obligations: List[dict] = []
+        self._seen = set()
         self.findings: List[Finding] = []
         self.notes: List[str] = []
         self.samples: List[Any] = []
@@ -62,6 +63,10 @@ class Check:
         return self.clauses.setdefault(rule, {'instances': 0, 'held': 0, 'failed': 0})
 
     def ok(self, rule: str, key: str, detail: str = '', nontrivial: bool = True):
+        if (rule, key, True) in self._seen:
+            self.evaluations += 1
+            return
+        self._seen.add((rule, key, True))
         self.obligations.append({'rule': rule, 'key': key, 'ok': True, 'detail': detail})
         c = self._clause(rule)
         c['instances'] += 1
@@ -73,6 +78,10 @@ class Check:
             print('  ok   %-10s %s %s' % (rule, key, detail))
 
     def bad(self, rule: str, key: str, msg: str, loc: Optional[str] = None, extra: Optional[dict] = None):
+        if (rule, key, False) in self._seen:
+            self.evaluations += 1
+            return
+        self._seen.add((rule, key, False))
         self.obligations.append({'rule': rule, 'key': key, 'ok': False, 'detail': msg})
         c = self._clause(rule)
         c['instances'] += 1
